@@ -233,3 +233,134 @@ def user_log_from_ops(spec, steps):
                 unf += op["amount"]
             user[key] = (uf, unf)
     return user
+
+
+def node_balances(world):
+    """the quantity `bal_d` of theorem C07.ledger_step for every strategy of a snapshot: cash + fees - flows + own securities'
+    (outlay row of the date + pending outlay) + sub-strategies' flows; keyed by path.  None when a clock is not set."""
+    out = {}
+
+    def rec(n, path):
+        if n["t"] != "T":
+            return
+        d = n["now"]
+        if d is None:
+            out[path] = None
+        else:
+            terms = [n["capital"], n["lastFee"], -n["netFlows"]]
+            for k in n["kids"]:
+                if k["t"] == "S":
+                    row = k["rOutlay"][d] if d < len(k["rOutlay"]) else 0.0
+                    terms += [row, k["outlayAcc"]]
+                else:
+                    terms.append(k["netFlows"])
+            out[path] = (sum(terms), max([1.0] + [abs(x) for x in terms]))
+        for i, k in enumerate(n["kids"]):
+            rec(k, path + (i,))
+    rec(world["root"], ())
+    return out
+
+
+def live_ledger_check(step):
+    """C07 at the level of one operation (theorem `ledger_step`): any public call made while the clocks stand still keeps the
+    balance of every strategy node, except a direct adjust - which moves the balance of the adjusted node by a non-flow amount, or
+    that of its parent by a flow amount (the parent has passed that capital down).  Returns [(key, message)]."""
+    if "post" not in step:
+        return []
+    op = step["op"]
+    pre, post = step["pre"], step["post"]
+    if op["op"] == "update" and pre["root"]["now"] != op.get("d"):
+        return []          # a date change: accumulators are reset, carry is swept (judged by the per-date ledger)
+    b0, b1 = node_balances(pre), node_balances(post)
+    exp = {}
+    if op["op"] == "adjust":
+        p = tuple(op["path"])
+        if op.get("flow", True):
+            if p:
+                exp[p[:-1]] = op["amount"]
+        else:
+            exp[p] = op["amount"]
+    out = []
+    for path, v0 in b0.items():
+        v1 = b1.get(path)
+        if v0 is None or v1 is None:
+            continue
+        (v0, s0), (v1, s1) = v0, v1
+        if v0 != v0 or v1 != v1:
+            continue
+        want = exp.get(path, 0.0)
+        scale = max(s0, s1, abs(want))     # the terms are large and cancel: judge against their magnitude
+        if abs((v1 - v0) - want) > 1e-9 * scale:
+            out.append(("node-balance:" + op["op"], "strategy at path %r: cash + fees - flows + own outlays + capital passed down moved by %r over a %s (expected %r)"
+                        % (list(path), v1 - v0, op["op"], want)))
+            break
+    return out
+
+
+def world_total(world):
+    """`total` of theorem C02.step_total: the cash of every strategy + position x price x multiplier of every security, with the fee and bid/offer measures the theorem uses.  -> (total, fees, bidoffer, scale) or None when
+    the tree is not in the day invariant (a strategy off the root's date, a held security off the date or without a price)."""
+    d = world["root"]["now"]
+    if d is None:
+        return None
+    tot = [0.0]
+    fees = [0.0]
+    bo = [0.0]
+    terms = [1.0]
+    ok = [True]
+
+    def rec(n):
+        if n["t"] == "T":
+            if n["now"] != d:
+                ok[0] = False
+                return
+            tot[0] += n["capital"]
+            fees[0] += n["lastFee"]
+            terms.append(abs(n["capital"]))
+            for k in n["kids"]:
+                rec(k)
+        else:
+            # (the carry parked on a security is not part of `total`: it is an accrual of the date, recomputed by every update of the
+            #  date from the position then held, and becomes cash only when it is swept on the next date)
+            if n["position"] != 0.0:
+                if n["now"] != d or n["price"] is None:
+                    ok[0] = False
+                    return
+                v = n["position"] * n["price"] * n["mult"]
+                tot[0] += v
+                terms.append(abs(v))
+            b = n["bidofferPaid"]
+            if n["bidofferSet"] and n["now"] != d:
+                b = 0.0            # its reset is pending until something refreshes it on this date
+            bo[0] += b
+            terms.append(abs(b))
+    rec(world["root"])
+    if not ok[0]:
+        return None
+    return tot[0], fees[0], bo[0], max(terms)
+
+
+def live_total_check(step):
+    """C02 at the level of one operation (theorem `step_total`): while the clocks stand still, every public call changes the total
+    by the capital injected (the amount of an adjust) minus the fees and bid/offer costs booked by the call."""
+    if "post" not in step:
+        return []
+    op = step["op"]
+    pre, post = step["pre"], step["post"]
+    if op["op"] == "update" and pre["root"]["now"] != op.get("d"):
+        return []
+    if post["root"]["bankrupt"] and not pre["root"]["bankrupt"]:
+        return []          # the liquidation is judged by its own theorem (closing costs only) on closed dates
+    a, b = world_total(pre), world_total(post)
+    if a is None or b is None:
+        return []
+    inj = op["amount"] if op["op"] == "adjust" else 0.0
+    want = inj - (b[1] - a[1]) - (b[2] - a[2])
+    got = b[0] - a[0]
+    if got != got or want != want:
+        return []
+    scale = max(a[3], b[3], abs(inj))
+    if abs(got - want) > 1e-9 * scale:
+        return [("total-not-conserved:" + op["op"], "total (all cash + positions at the current prices) moved by %r over a %s; injected %r, fees %r, bid/offer %r give %r"
+                 % (got, op["op"], inj, b[1] - a[1], b[2] - a[2], want))]
+    return []
